@@ -17,6 +17,7 @@
 package main
 
 import (
+	"encoding/hex"
 	"fmt"
 	"math"
 	"reflect"
@@ -403,6 +404,9 @@ func withFresh(src string, out map[string]any, f func(mod *ir.Module)) {
 	}
 }
 
+// set per job: return the SPIR-V binary (hex) next to its length
+var wantSpvBytes bool
+
 func compileAll(mod *ir.Module, out map[string]any) {
 	func() {
 		defer func() {
@@ -433,6 +437,9 @@ func compileAll(mod *ir.Module, out map[string]any) {
 			out["spv_err"] = err.Error()
 		} else {
 			out["spv_len"] = len(b)
+			if wantSpvBytes {
+				out["spv"] = hex.EncodeToString(b)
+			}
 		}
 	}()
 }
@@ -452,6 +459,7 @@ func doResolve(j *job, res map[string]any) {
 		return
 	}
 	nOrigConsts = 1 << 30
+	wantSpvBytes = wantsPath(j, "canon")
 	res["lowered"] = map[string]any{
 		"overrides": overridesJSON(mod), "globals": globalsJSON(mod), "workgroups": workgroupsJSON(mod),
 		"named": namedJSON(mod), "stmt_classes": stmtClasses(mod),
@@ -473,6 +481,9 @@ func doResolve(j *job, res map[string]any) {
 			po["workgroups"] = workgroupsJSON(clone)
 			po["named"] = namedJSON(clone)
 			nOrigConsts = 1 << 30
+			if wantsPath(j, "canon") {
+				po["canon"] = canonModule(clone)
+			}
 			if wantsPath(j, "backends") {
 				b := map[string]any{}
 				compileAll(clone, b)
@@ -480,6 +491,22 @@ func doResolve(j *job, res map[string]any) {
 			}
 		})
 		res["po"] = po
+	}
+	// the substituted-constant reference: the WGSL program in which every override
+	// declaration was replaced by a `const` of the value it must take (form family)
+	if sub, ok := j.Data["subst"].(string); ok && sub != "" {
+		sr := map[string]any{}
+		smod, sstage, serr := lowerSrc(sub)
+		if serr != nil {
+			sr["stage"] = sstage
+			sr["err"] = serr.Error()
+		} else {
+			sr["canon"] = canonModule(smod)
+			b := map[string]any{}
+			compileAll(smod, b)
+			sr["backends"] = b
+		}
+		res["subst"] = sr
 	}
 	if wantsPath(j, "glsl") {
 		g := map[string]any{}
